@@ -4,6 +4,7 @@
    labeller as it is coded now; the `edges_` obligations (labellers returning a labelled graph) feed
    `labeller_output_wf`. -/
 import MenpoModel.Generated.C15Labellers
+import MenpoModel.Props.C15
 
 namespace MenpoModel.C15.GenProps
 open MenpoModel.C15
@@ -71,5 +72,18 @@ theorem edges_tongue_ibug_19_to_tongue_ibug_19 : labellerEdgesWF Generated.tongu
 
 /-- all of them at once, in the form the property theorems consume -/
 theorem all_wf : ∀ p ∈ Generated.all, labellerWF p.2 = true := by decide +kernel
+
+/-- the labeller clause of the property for every index-based labeller the live module exports: wrong sizes
+are rejected, the labeller commutes with every map of the points, output point `j` is input point `ind[j]`
+(all distinct), every output point is labelled -/
+theorem live_labellers {α β : Type} : ∀ p ∈ Generated.all, ∀ (xs : List α),
+    (xs.length ≠ p.2.nExpected → p.2.apply xs = .error .labelling) ∧
+    (∀ f : α → β, p.2.apply (xs.map f) = (p.2.apply xs).map (mapPts f)) ∧
+    (∀ g, p.2.apply xs = .ok g → g.pts.length = p.2.ind.length ∧
+      (∀ j, j < p.2.ind.length → p.2.ind[j]! < xs.length ∧ g.pts[j]? = xs[p.2.ind[j]!]?) ∧
+      p.2.ind.Nodup ∧ Covered g) :=
+  fun p hp xs => ⟨(labeller_size p.2 xs).1, fun f => labeller_commutes p.2 f xs, fun g h =>
+    have r := labeller_reindexes p.2 (all_wf p hp) xs g h
+    ⟨r.1, r.2.1, r.2.2, (labeller_all_labelled p.2 (all_wf p hp) xs g h).1⟩⟩
 
 end MenpoModel.C15.GenProps
